@@ -33,8 +33,8 @@ META = {
     "files": ["asyncfix/message.py", "asyncfix/fixtags.py", "asyncfix/msgtype.py", "asyncfix/errors.py"],
     "rule": "adaptive random operation sequences (<= 25 ops quick) over 4 container variables (FIXContainer and FIXMessage), "
             "9 tag numbers x 3 spellings (int, str, FTag) plus odd spellings (' 5', '+5', '05', '5_0', 'x', '', '1.0', None ...), "
-            "values str/int/float/enum/bool/None/class/nested dict lists/containers, nesting <= 3, twin-variable and "
-            "collision scenarios for equality; a case is one sequence, non-trivial when it mutates a container at least "
+            "values str/int/float/enum/bool/None/class/nested dict lists/containers, nesting <= 3, twin-variable, "
+            "text-collision, msg_type-of-item and error-marker scenarios for equality; a case is one sequence, non-trivial when it mutates a container at least "
             "3 times, reads at least once and reaches a refusal; distinct by canonical op list; pickle round trip is "
             "checked differentially on every variable at the end of each sequence",
     "trusted_base": ["str() of values, floats and enum members is computed by Python and handed to the model",
@@ -358,6 +358,11 @@ class RC:
     def content(self):
         return [[k, v if isinstance(v, str) else [[x.mt, x.content()] for x in v]] for k, v in self.d.items()]
 
+    def tv_content(self):
+        """Tag/value content as the property means it for ==: ordered tags, values, nested groups;
+        the msg_type of the container and of group items is not a tag."""
+        return [[k, v if isinstance(v, str) else [x.tv_content() for x in v]] for k, v in self.d.items()]
+
 
 def is_int_key(k):
     try:
@@ -553,7 +558,7 @@ class Ref:
                 out[kk] = c.d.get(kk)
             return [[kk, v] for kk, v in out.items()]
         if k == "eq":
-            return c.content() == self.pool[op[2]].content()
+            return c.tv_content() == self.pool[op[2]].tv_content()
         if k == "eqd":
             other = {}
             for ts, vs in op[2]:
@@ -620,23 +625,6 @@ def impl_view(op, raw):
     return r
 
 
-def clean_ref(c, top=True):
-    """The hypothesis of C18_eq_iff_content_partial on a reference container."""
-    def okstr(s):
-        return not (set(s) & DELIMS)
-    if not top and c.mt is not None and not okstr(c.mt):
-        return False
-    for k, v in c.d.items():
-        if not k or k[0] == "m" or not okstr(k):
-            return False
-        if isinstance(v, str):
-            if not okstr(v):
-                return False
-        elif not all(clean_ref(x, False) for x in v):
-            return False
-    return True
-
-
 def matches(names, cls):
     E = lib()["exc"]
     return any(issubclass(cls, E[n]) for n in names)
@@ -698,12 +686,7 @@ class Oracle:
         want = ("%r" % (exp[1],)) if exp[0] == "ok" else ("%s (%s)" % ("/".join(exp[1]), exp[2])) if exp[0] == "exc" \
             else "%r or %s" % (exp[1], "/".join(exp[2]))
         what = "%s %s, the property requires %s" % (k, seen, want)
-        # ---- known-finding class predicate (narrow): equality by rendered text, D18 ----
-        cls = None
-        r = self.ref
-        if k == "eq" and raw == ("ok", True) and exp == ("ok", False) and not (
-                clean_ref(r.pool[op[1]]) and clean_ref(r.pool[op[2]])):
-            cls = "D18-eq-by-rendered-text"
+        cls = None          # no known-finding class is left for C18: every deviation is a violation
         if cls is None:
             self.judging = False
         return (what, cls)
@@ -919,11 +902,24 @@ def gen_op(rng, ref):
 
 
 def collision_prefix(rng):
-    """Two variables whose content differs but whose text may coincide (D18)."""
+    """Two variables whose content differs but whose text may coincide (the former D18), or whose
+    content is the same although the text differs (msg_type of a group item), or error markers."""
     k1, k2 = rng.sample(NUMS, 2)
     v1, v2 = rng.choice(["a", "b", "0", ""]), rng.choice(["x", "y", "1"])
     x = rng.random()
-    if x < 0.4:
+    if x < 0.15:
+        # a FIXMessage and a FIXContainer with the same tags as group items: same content
+        d = [[["i", k2], ["s", v2]]]
+        return [["new", 2, rng.choice(MTS), d], ["new", 3, None, d],
+                ["new", 0, None, [[["i", k1], ["L", [["V", 2]]]]]], ["new", 1, None, [[["i", k1], ["L", [["V", 3]]]]]],
+                ["eq", 0, 1], ["eq", 2, 3], ["str", 0], ["str", 1]]
+    if x < 0.3:
+        # error markers: one token whatever the class; not the string "#err#"; other classes are themselves
+        c1, c2 = rng.choice([("TagNotFoundError", "RepeatingTagError"), ("ValueError", "DuplicatedTagError"),
+                             ("int", "int"), ("int", "FIXContainer"), ("int", "ValueError")])
+        return [["set", 0, ["i", k1], ["c", c1], False, "set"], ["set", 1, ["i", k1], ["c", c2], False, "set"],
+                ["set", 2, ["i", k1], ["s", "#err#"], False, "set"], ["eq", 0, 1], ["eq", 0, 2], ["eq", 1, 2]]
+    if x < 0.5:
         a = [[["i", k1], ["s", "%s|%d=%s" % (v1, k2, v2)]]]
         b = [[["i", k1], ["s", v1]], [["i", k2], ["s", v2]]]
     elif x < 0.7:
